@@ -330,9 +330,12 @@ Fixpoint srun (fwd : bool) (evs : list sev) (s : st) (c : cursor) : option (st *
 Definition gid := nat.
 Definition forest := gid -> st.
 Definition upd (gs : forest) (g : gid) (s : st) : forest := fun h => if h =? g then s else gs h.
-Inductive cb := CEnter (g : gid) | CExit (g : gid).
+(* trace events: enter_graph(g), exit_graph(g), and the call recursive(x) of the user predicate *)
+Inductive cb := CEnter (g : gid) | CExit (g : gid) | CRec (x : elt).
 Definition frame := (gid * cursor * list gid)%type.
-Inductive rcursor := RFresh (g0 : gid) | RRun (stack : list frame).
+(* RRun last stack: `last` = the node just yielded by the top generator, whose `recursive(node)` call (made when
+   the generator resumes) is still to come *)
+Inductive rcursor := RFresh (g0 : gid) | RRun (last : option elt) (stack : list frame).
 
 Section Rec.
   Variable subs : elt -> list gid.
@@ -376,30 +379,51 @@ Section Rec.
         end
     end.
 
+End Rec.
+
+(* the `recursive` predicate (traversal.py:73): None = descend everywhere; Some p = after yielding x the generator
+   calls p(x) when it resumes and skips x's subgraphs when it answers False *)
+Definition eff_subs (subs : elt -> list gid) (recp : option (elt -> bool)) (x : elt) : list gid :=
+  match recp with None => subs x | Some p => if p x then subs x else [] end.
+
+Section RecNext.
+  Variable subs : elt -> list gid.
+  Variable recp : option (elt -> bool).
+  Variable fwd : bool.
+  Variable gs : forest.
+
   (* next(it) on a RecursiveGraphIterator *)
   Definition rnext (rc : rcursor) : option (rcursor * option elt * list cb) :=
     match rc with
     | RFresh g0 =>
-        match rnext_stack [(g0, Fresh, [])] with
+        match rnext_stack (eff_subs subs recp) fwd gs [(g0, Fresh, [])] with
         | None => None
-        | Some (st', y, ev) => Some (RRun st', y, CEnter g0 :: ev)
+        | Some (st', y, ev) => Some (RRun y st', y, CEnter g0 :: ev)
         end
-    | RRun stack =>
-        match rnext_stack stack with
+    | RRun last stack =>
+        let pre := match last, recp with Some x, Some _ => [CRec x] | _, _ => [] end in
+        match rnext_stack (eff_subs subs recp) fwd gs stack with
         | None => None
-        | Some (st', y, ev) => Some (RRun st', y, ev)
+        | Some (st', y, ev) => Some (RRun y st', y, pre ++ ev)
         end
     end.
-End Rec.
+End RecNext.
 
 (* ---------- case runner for nested graphs *)
 Inductive rev_ :=
-| RNew (fwd : bool) | FNew (g : gid) (fwd : bool) | RStep (i : nat) | REdit (g : gid) (e : edit).
-Inductive riter := IFlat (g : gid) (fwd : bool) (c : cursor) | IRec (fwd : bool) (rc : rcursor).
+| RNew (fwd : bool) (stop : option (list elt)) (withcb : bool)   (* stop = nodes where recursive(node) is False *)
+| FNew (g : gid) (fwd : bool) | RStep (i : nat) | REdit (g : gid) (e : edit).
+Inductive riter :=
+| IFlat (g : gid) (fwd : bool) (c : cursor)
+| IRec (fwd : bool) (stop : option (list elt)) (withcb : bool) (rc : rcursor).
+Definition pred_of (stop : option (list elt)) : option (elt -> bool) :=
+  match stop with None => None | Some l => Some (fun x => negb (existsb (Nat.eqb x) l)) end.
 Definition rmstate := (forest * list riter)%type.
 Fixpoint assoc_subs (tbl : list (elt * list gid)) (x : elt) : list gid :=
   match tbl with [] => [] | (y, l) :: t => if y =? x then l else assoc_subs t x end.
-Definition cb_code (c : cb) : nat := match c with CEnter g => 2 * g | CExit g => S (2 * g) end.
+Definition cb_code (c : cb) : nat :=
+  match c with CEnter g => 3 * g | CExit g => 3 * g + 1 | CRec x => 3 * x + 2 end.
+Definition is_rec (c : cb) : bool := match c with CRec _ => true | _ => false end.
 
 Section RecRun.
   Variables (tf tb : list (elt * list gid)).     (* subs tables for forward / reverse traversal *)
@@ -408,7 +432,7 @@ Section RecRun.
   Definition rrun_ev (m : rmstate) (e : rev_) : rmstate * res (option elt) * list nat :=
     let '(gs, its) := m in
     match e with
-    | RNew fwd => ((gs, its ++ [IRec fwd (RFresh 0)]), Ok None, [])
+    | RNew fwd stop withcb => ((gs, its ++ [IRec fwd stop withcb (RFresh 0)]), Ok None, [])
     | FNew g fwd => ((gs, its ++ [IFlat g fwd Fresh]), Ok None, [])
     | RStep i =>
         match nth_error its i with
@@ -418,10 +442,13 @@ Section RecRun.
             | None => (m, Raise OtherError, [])
             | Some (c', y) => ((gs, set_nth its i (IFlat g fwd c')), Ok y, [])
             end
-        | Some (IRec fwd rc) =>
-            match rnext (subs_for fwd) fwd gs rc with
+        | Some (IRec fwd stop withcb rc) =>
+            match rnext (subs_for fwd) (pred_of stop) fwd gs rc with
             | None => (m, Raise OtherError, [])
-            | Some (rc', y, ev) => ((gs, set_nth its i (IRec fwd rc')), Ok y, map cb_code ev)
+            | Some (rc', y, ev) =>
+                (* without enter/exit callbacks only the predicate calls are observable *)
+                let ev' := if withcb then ev else filter is_rec ev in
+                ((gs, set_nth its i (IRec fwd stop withcb rc')), Ok y, map cb_code ev')
             end
         end
     | REdit g ed =>
